@@ -64,6 +64,9 @@ type Exec struct {
 	distinct  map[[2]int]bool
 	freshSet  map[int]bool
 	recips    map[int]*smt.Term
+	closures  map[int]*Val
+	rootInfo  *rootInfo
+	exprTypes map[Expr]types.Type
 	oldSet    map[int]bool
 }
 
@@ -694,6 +697,9 @@ func (x *Exec) asTerm(val *Val) *smt.Term {
 	if val.T != nil {
 		return val.T
 	}
+	if val.Tup != nil {
+		panic(unsupported("tuple used as a single value"))
+	}
 	if val.Loc != nil {
 		if t := x.locAsTerm(val); t != nil {
 			return t
@@ -703,11 +709,24 @@ func (x *Exec) asTerm(val *Val) *smt.Term {
 	if val.Fn != nil {
 		// function value as opaque id
 		name := "fn_" + smt.Sanitize(val.Fn.String())
+		var t *smt.Term
 		if len(val.Binds) > 0 {
-			x.ghostSeq++
-			return x.b.Fresh(name+"_closure", "Int")
+			if val.T != nil {
+				return val.T
+			}
+			t = x.b.Fresh(name+"_closure", "Int")
+			val.T = t
+		} else {
+			t = x.b.Const(name, "Int")
 		}
-		return x.b.Const(name, "Int")
+		if x.closures == nil {
+			x.closures = map[int]*Val{}
+		}
+		if _, ok := x.closures[t.ID]; !ok {
+			x.closures[t.ID] = val
+			x.axiom(x.b.Cmp(">", t, x.b.Int(0)))
+		}
+		return t
 	}
 	panic(unsupported("value has no term form"))
 }
